@@ -19,12 +19,12 @@ SET_CLEAR = '{"set", "clear"}'
 def _configs(thorough):
     cfgs = {
         # all three mutators, layered maps, pre-populated maps built off the tree
-        'c11_tree': (rc.consts(maps=3, handles=3 if thorough else 2, depth=2, ops='Ops_Tree'), 3),
+        'c11_tree': (rc.consts(maps=3, handles=3 if thorough else 2, depth=2, ops='Ops_Tree'), 3 if thorough else 2),
         # composite keys of depth 3 over four maps: leading parts that exist (explicit or implicit) followed by parts
         # that have to be created, one or two implicit maps per call
-        'c11_deep': (rc.consts(maps=4, handles=1, depth=3, ops=SET_CLEAR), 2),
+        'c11_deep': (rc.consts(maps=4, handles=1, depth=3, ops=SET_CLEAR), 3 if thorough else 2),
         # resources moved from a staging map into the main tree, either map cleared afterwards
-        'c11_staging': (rc.consts(maps=3, handles=2, depth=2, ops=SET_CLEAR, staging=True), 2),
+        'c11_staging': (rc.consts(maps=3, handles=2, depth=2, ops=SET_CLEAR, staging=True), 3 if thorough else 2),
     }
     if thorough:
         cfgs['c11_deep_layers'] = (rc.consts(maps=3, handles=2, depth=3, ops='Ops_Tree'), 3)
@@ -49,7 +49,7 @@ def run(res):
     join2()
     for name, ((c, ov), depth_all) in cfgs.items():
         rc.check_and_replay(res, name, c, ov, rc.INV_TREE, rc.PROP_TREE, own=FACETS_TREE, probe=True, depth_all=depth_all,
-                            walks=3000 if thorough else 600, walk_len=25, pre=pre[name])
+                            walks=3000 if thorough else 800, walk_len=25, pre=pre[name])
         if res.violations:
             break
     if thorough and not res.violations:
